@@ -245,6 +245,7 @@ Definition is_none (x : val) : bool := match x with VNone => true | _ => false e
 
 (** library steps whose outcome is an input of the model (the injection alphabet) *)
 Inductive stage :=
+| StRecon           (* WsgiApplication.__reconstruct_wsgi_request: declared length too long / not a number *)
 | StCreateInDoc      (* in_protocol.create_in_document: malformed bytes, request too long *)
 | StDecompose        (* in_protocol.decompose_incoming_envelope: bad envelope *)
 | StDispatch         (* in_protocol.generate_method_contexts: unknown method *)
@@ -282,11 +283,12 @@ Inductive stmt :=
 | Unmodelled.                     (* code outside the model; reaching it is flagged *)
 
 Record scen := {
-  sc_create : option exk; sc_decomp : option exk; sc_dispatch : option exk; sc_deser : option exk;
+  sc_recon : option exk; sc_create : option exk; sc_decomp : option exk; sc_dispatch : option exk; sc_deser : option exk;
   sc_fn : option exk; sc_ser : option exk; sc_redirect : option exk;
   sc_after_on_fault : bool; sc_doc_early : bool; sc_opaque : bool }.
 Definition sc_inj (sc : scen) (g : stage) : option exk :=
   match g with
+  | StRecon => sc_recon sc
   | StCreateInDoc => sc_create sc | StDecompose => sc_decomp sc | StDispatch => sc_dispatch sc
   | StDeserialize => sc_deser sc | StUserFn => sc_fn sc | StSerialize => sc_ser sc
   | StDoRedirect => sc_redirect sc
@@ -402,6 +404,7 @@ Fixpoint seq (l : list stmt) : stmt :=
 
 (** in_protocol.create_in_document / decompose_incoming_envelope / generate_method_contexts
     (the latter sets ctx.descriptor on the copies it returns; one primary context, no aux) *)
+Definition lib_reconstruct : stmt := Inject StRecon.
 Definition lib_create_in_document : stmt := Inject StCreateInDoc.
 Definition lib_decompose : stmt := Inject StDecompose.
 Definition lib_generate_method_contexts : stmt := Seq (Inject StDispatch) (SetObj VDesc).
